@@ -46,6 +46,8 @@ type C04Params struct {
 	STilde cfgPattern `json:"effective_no_space_suffix"`
 	Plan   simrt.Plan `json:"plan"`
 	Seeds  []int      `json:"seeds"` // choices for the sample strings
+	// Via: how the regex reaches the user: printed by generate, or written into the rules file by update
+	Via string `json:"via,omitempty"`
 }
 
 var evasionPool = map[string][]cfgPattern{
@@ -105,7 +107,7 @@ func genC04(t *rapid.T, tier string) (*World, any) {
 			word += `\~`
 		}
 		if chance(t, 8, "verbatim") {
-			word = "'" + pick(t, []string{"ab+c", "x[0-9]y", "p(?:q|r)s", "kk|mm", "ap(?:t)?|yu", "'q[a-c]+'"}, "verb")
+			word = "'" + pick(t, []string{"ab+c", "x[0-9]y", "p(?:q|r)s", "kk|mm", "ap(?:t)?|yu", "'q[a-c]+'", "us+er@", "ro+t~", `ma+il\\@`, `ti+l\\~`, "a@|b~"}, "verb")
 		}
 		if seen[word] {
 			continue
@@ -257,12 +259,19 @@ func genC04(t *rapid.T, tier string) (*World, any) {
 		lines = append(lines, blk...)
 	}
 	w.Put("crs/regex-assembly/932100.ra", joinLines(lines))
+	// the same expression is what update writes and compare expects, with the same configuration
+	if chance(t, 25, "via-update") {
+		p.Via = "update"
+		w.Put("crs/rules/REQUEST-932-APPLICATION-ATTACK-RCE.conf", "# rules\n\nSecRule ARGS \"@rx stored\" \\\n    \"id:932100,\\\n    phase:2,\\\n    deny\"\n")
+	}
 	return w, p
 }
 
 var verbatimSamples = map[string][]string{
 	"ab+c": {"abc", "abbc"}, "x[0-9]y": {"x5y"}, "p(?:q|r)s": {"pqs", "prs"},
 	"kk|mm": {"kk", "mm"}, "ap(?:t)?|yu": {"ap", "apt", "yu"}, "a|b|c": {"a", "b", "c"}, "'q[a-c]+'": {"'qa'", "'qabc'"},
+	// a verbatim line is passed through untouched, also when it ends in what would be a marker on a command word
+	"us+er@": {"user@", "usser@"}, "ro+t~": {"rot~", "root~"}, `ma+il\\@`: {`mail\@`, `maail\@`}, `ti+l\\~`: {`til\~`}, "a@|b~": {"a@", "b~"},
 }
 
 // word model from the statement
@@ -325,14 +334,33 @@ func evalC04(sc *Scenario, sim *Sim) ([]Violation, bool, string) {
 	}
 	sb := sim.NewSandbox(sc.World)
 	defer sb.Close()
-	argv := []string{"regex", "generate", "932100"}
+	verb := "generate"
+	if p.Via == "update" {
+		verb = "update"
+	}
+	argv := []string{"regex", verb, "932100"}
 	if p.ConfigMode == "other-name" {
-		argv = []string{"-f", "alternative.yml", "regex", "generate", "932100"}
+		argv = []string{"-f", "alternative.yml", "regex", verb, "932100"}
 	}
 	if p.ConfigMode == "other-name-missing" {
-		argv = []string{"-f", "nosuchfile.yaml", "regex", "generate", "932100"}
+		argv = []string{"-f", "nosuchfile.yaml", "regex", verb, "932100"}
+	}
+	const c04Rules = "crs/rules/REQUEST-932-APPLICATION-ATTACK-RCE.conf"
+	// operand extracts what update stored: the text between `"@rx ` and the closing `" \` of the SecRule line
+	operand := func(s *Sandbox, res *Result) {
+		if p.Via != "update" || res.Exit != 0 {
+			return
+		}
+		for _, ln := range strings.Split(string(s.MustRead(c04Rules)), "\n") {
+			if strings.HasPrefix(ln, `SecRule ARGS "@rx `) && strings.HasSuffix(ln, `" \`) {
+				res.Stdout = []byte(strings.TrimSuffix(strings.TrimPrefix(ln, `SecRule ARGS "@rx `), `" \`))
+				return
+			}
+		}
+		machinery("C04: SecRule line not found after update: %q", s.MustRead(c04Rules))
 	}
 	r := sb.Run(Step{Argv: argv, Cwd: "crs", Plan: p.Plan})
+	operand(sb, &r)
 	var viol []Violation
 	add := func(oracle, what, msg, detail string) {
 		viol = append(viol, Violation{Prop: "C04", Oracle: oracle, Sig: "C04/" + oracle + "/" + what + "/" + p.ConfigMode, Msg: msg,
@@ -357,7 +385,8 @@ func evalC04(sc *Scenario, sim *Sim) ([]Violation, bool, string) {
 		sb2 := sim.NewSandbox(ew)
 		pl := p.Plan
 		pl.IOFaults = nil
-		r2 := sb2.Run(Step{Argv: []string{"regex", "generate", "932100"}, Cwd: "crs", Plan: pl})
+		r2 := sb2.Run(Step{Argv: []string{"regex", verb, "932100"}, Cwd: "crs", Plan: pl})
+		operand(sb2, &r2)
 		sb2.Close()
 		if r2.Exit != r.Exit || !bytes.Equal(r2.Stdout, r.Stdout) {
 			add("failed-config-is-empty-config", "differs", "with a missing / unreadable / torn configuration the output differs from that of the explicit empty configuration (a partial pattern set leaked)",
